@@ -410,13 +410,15 @@ fn c09(thorough: bool) -> Report {
     for _fresh in 0..(if thorough { 200 } else { 40 }) {
         for (what, mut req) in requests(&uri) {
             // further additions in varying order
-            let adds = [("zz-last", 1), ("aa-first", 2), ("job-uri-x", 3), ("requesting-user-name2", 4)];
+            let adds = [("zz-last", 1), ("aa-first", 2), ("job-uri-x", 3), ("requesting-user-name2", 4), ("job-uri", 5), ("job-id", 6)];
             let k = r.cases % adds.len();
             for i in 0..adds.len() { let (n, v) = adds[(i + k) % adds.len()]; req.attributes_mut().add(DelimiterTag::OperationAttributes, IppAttribute::new(n, IppValue::Integer(v))); }
             let bytes = req.to_bytes().to_vec();
             r.case(&bytes);
             match first_group_names(&bytes) {
                 Some(names) => {
+                    let uniq: HashSet<&String> = names.iter().collect();
+                    if uniq.len() != names.len() { r.fail(format!("{what}: an attribute is written twice in the operation group: {names:?}")); return r; }
                     let ranks: Vec<u8> = names.iter().map(|n| rank(n)).collect();
                     let sorted = ranks.windows(2).all(|w| w[0] <= w[1]);
                     if !sorted || ranks.first() != Some(&0) || ranks.get(1) != Some(&1) {
